@@ -43,8 +43,8 @@ PROFILES = {
     "C12": [("recursion", 3), ("visibility", 2), ("mix", 1)],
     "C13": [("recursion", 2), ("mix", 1), ("lifetime", 1)],
     "C14": [("access", 3), ("mix", 1)],
-    "C15": [("once", 2), ("sharedkey", 2), ("lifetime", 1), ("mix", 1)],
-    "C16": [("wr", 4), ("mix", 1)],
+    "C15": [("once2", 4), ("once", 1), ("sharedkey", 1), ("mix", 1)],
+    "C16": [("ewr", 5), ("wr", 1), ("mix", 1)],
     "C17": [("syscall", 1)],
     "C18": [("stale", 3), ("lifetime", 1), ("mix", 1)],
 }
